@@ -10,12 +10,14 @@
          enqueue and the decrement of queueNotifyCounter in ~DisableQueueNotify — is made while
          holding queueListMutex, so it cannot fall between (a)'s evaluation and parking;
      (c) both are followed, in the same call, by the notification test and notify_one.
+   Also proved (QConcWait.v): the third clause of the property — what wait / waitFor have observed when
+   they return, and that waitFor returns false only after its timeout — under arbitrary interference.
    What is NOT mechanised: the final step from (a)–(c) to "no reachable configuration has every
    waiter parked with events pending and notification enabled" (an invariant over all
    interleavings).  That statement is checked by schedule search on model and implementation
    (see the check's evidence), which is how the defect repaired by bbf0063 was found. *)
 From Coq Require Import List Arith NArith ZArith Bool.
-From EV Require Import QConc QConcProofs.
+From EV Require Import QConc QConcProofs QConcWait.
 From EV.gen Require GenQ GenQConc.
 Import ListNotations.
 
@@ -36,6 +38,31 @@ Proof.
   intros le ec nc. unfold GenQ.can_process, GenQ.can_notify. rewrite andb_true_iff, negb_true_iff, Z.eqb_eq. tauto.
 Qed.
 Print Assumptions C07_wait_predicate.
+
+(* what wait() / waitFor() have observed when they return, under ARBITRARY interference by other threads
+   (every read of shared state may return any value; QConcWait.v): wait returns, and waitFor returns
+   true, only after an evaluation of doCanProcess — made by the returning thread under queueListMutex —
+   that found the queue non-empty and notification enabled; waitFor returns false only after its timeout *)
+Theorem C07_wait_loop_exit_condition : forall timed lo, wql (wait_loop timed) (WExit timed) lo.
+Proof. exact wait_exit_condition. Qed.
+Print Assumptions C07_wait_loop_exit_condition.
+
+Theorem C07_wait_returns_only_after_observing_work :
+  wql (code_of AWait) (fun lo => lb lo = true /\ lbe lo = false) lo0.
+Proof. exact wait_returns_only_after_observing_work. Qed.
+Print Assumptions C07_wait_returns_only_after_observing_work.
+
+Theorem C07_waitfor_result_means_what_it_says :
+  wql (code_of AWaitFor)
+      (fun lo => (lres lo = true -> lb lo = true /\ lbe lo = false) /\ (lres lo = false -> ltimedout lo = true)) lo0.
+Proof. exact waitfor_result_means_what_it_says. Qed.
+Print Assumptions C07_waitfor_result_means_what_it_says.
+
+Theorem C07_predicate_values_mean :
+  (forall nc, GenQ.can_notify nc = true <-> nc = 0%Z) /\
+  (forall list_empty ec, GenQ.empty_queue list_empty ec = false <-> (list_empty = false \/ ec <> 0%Z)).
+Proof. exact predicate_values_mean. Qed.
+Print Assumptions C07_predicate_values_mean.
 
 (* regression witnesses for the repaired destructor *)
 Theorem C07_unlocked_decrement_refuted : check 200 [] legacy_disable_end = None.
